@@ -18,6 +18,7 @@ type tamper struct {
 	label  string
 	bytes  []byte
 	expect string
+	asType string // anchored under this operation type instead of the original one (cross-type replay)
 }
 
 func splitJWS(s string) (h, p, sig []byte, ok bool) {
@@ -54,7 +55,7 @@ func (w *World) tamperCatalogue(req map[string]any, kind ref.OpKind, alg uint, s
 		return ref.JCS(r)
 	}
 	withJWS := func(s string) []byte { return with(func(r map[string]any) { r["signedData"] = s }) }
-	add := func(label string, b []byte) { out = append(out, tamper{label, b, "R"}) }
+	add := func(label string, b []byte) { out = append(out, tamper{label: label, bytes: b, expect: "R"}) }
 
 	// (a) every bit of the decoded signature
 	for i := 0; i < len(sig)*8; i++ {
@@ -177,6 +178,32 @@ func (w *World) tamperCatalogue(req map[string]any, kind ref.OpKind, alg uint, s
 		}
 	}))
 
+	// (e') cross-type replay: the signed data of this operation presented as an operation of another type (request and anchored
+	// type relabelled), with the request's DID suffix kept, removed or emptied. Nobody signed an operation of that type.
+	_, signsSuffix := pm["didSuffix"]
+	for _, other := range []ref.OpKind{ref.Update, ref.Recover, ref.Deactivate} {
+		if other == kind || (other == ref.Deactivate && signsSuffix) {
+			// (signed data that names the DID suffix and a recovery key is a deactivate's signed data: not a forgery)
+			continue
+		}
+		for _, sfx := range []string{"kept", "removed", "empty"} {
+			sfx, other := sfx, other
+			b := with(func(r map[string]any) {
+				r["type"] = string(other)
+				switch sfx {
+				case "removed":
+					delete(r, "didSuffix")
+				case "empty":
+					r["didSuffix"] = ""
+				}
+				if other == ref.Deactivate {
+					delete(r, "delta")
+				}
+			})
+			out = append(out, tamper{label: fmt.Sprintf("replayed-as-%s/suffix-%s", other, sfx), bytes: b, expect: "R", asType: string(other)})
+		}
+	}
+
 	// (f) delta substitution (the signed delta hash is left alone)
 	if d, ok := req["delta"].(map[string]any); ok {
 		exp := "R"
@@ -189,7 +216,7 @@ func (w *World) tamperCatalogue(req map[string]any, kind ref.OpKind, alg uint, s
 			if ref.Equal(nd, d) {
 				return
 			}
-			out = append(out, tamper{"delta/" + label, with(func(r map[string]any) { r["delta"] = nd }), exp})
+			out = append(out, tamper{label: "delta/" + label, bytes: with(func(r map[string]any) { r["delta"] = nd }), expect: exp})
 		}
 		subst("updateCommitment", func(m map[string]any) { m["updateCommitment"] = ref.Commitment(alg, attacker.RefJWK("")) })
 		subst("patches", func(m map[string]any) {
@@ -198,7 +225,7 @@ func (w *World) tamperCatalogue(req map[string]any, kind ref.OpKind, alg uint, s
 		subst("patch-appended", func(m map[string]any) {
 			m["patches"] = append(append([]any{}, listOf(m["patches"])...), map[string]any{"action": "add-also-known-as", "uris": []any{"did:evil:extra"}})
 		})
-		out = append(out, tamper{"delta/removed", with(func(r map[string]any) { delete(r, "delta") }), exp})
+		out = append(out, tamper{label: "delta/removed", bytes: with(func(r map[string]any) { delete(r, "delta") }), expect: exp})
 	}
 
 	// (g) protected header
@@ -283,8 +310,9 @@ func (w *World) execTamper(stepIdx int, st *Step) {
 	if err != nil || req == nil {
 		return
 	}
+	anchorAs := string(kind)
 	anch := func(b []byte) *operation.AnchoredOperation {
-		return &operation.AnchoredOperation{Type: operation.Type(kind), UniqueSuffix: d.Suffix, OperationRequest: b,
+		return &operation.AnchoredOperation{Type: operation.Type(anchorAs), UniqueSuffix: d.Suffix, OperationRequest: b,
 			TransactionTime: uint64(w.Now("ledger")), TransactionNumber: 1, ProtocolVersion: w.Plan.Swarm.GenesisTime, CanonicalReference: "uEiTamper"}
 	}
 	before := snapshotRM(prev)
@@ -306,7 +334,12 @@ func (w *World) execTamper(stepIdx int, st *Step) {
 		if st.Index > 0 && st.Index-1 != i {
 			continue
 		}
+		anchorAs = string(kind)
+		if t.asType != "" {
+			anchorAs = t.asType
+		}
 		next, terr := w.Applier.Apply(anch(t.bytes), prev)
+		anchorAs = string(kind)
 		w.T.Count("tampers_applied", 1)
 		w.T.Fault("tamper_" + strings.SplitN(t.label, "/", 2)[0])
 		class := strings.SplitN(t.label, "/", 2)[0]
